@@ -81,6 +81,8 @@ def merge( ranges, reach=1, limit=None ):
     except StopIteration:
         return # no ranges; nothing to merge
     for address, count in input:
+        if not count:
+            continue # an empty range requests no register; it must not stretch its neighbours
         if length:
             if ( address < base + length
                  or ( address // 10000 == base // 10000
